@@ -19,6 +19,9 @@ func checkC11(c *Ctx) {
 	r.Rule("R11.4", "options and With-forms: WithJSONMode/WithColorMode (methods and Opt constructors) call the namesake Set with their own arguments (methods: shared with R10.2)")
 	r.Rule("R11.6", "the shape of a record comes from this record's state only: in each of the three modes no field of the pooled encoder can be read before the current record wrote it (engine E10, shared with R09.1), so material formatted for a previous record in another format cannot surface")
 	r.Rule("R11.7", "no colour outside colored mode: in JSON and logfmt mode (mode bits pruned, the testing/debug dump included) no reachable site writes a constant containing the escape byte; positive control: the same query finds the escape writers in colored mode")
+	r.Rule("R09.2", "(shared with C09) the shape of a record comes from its own logger's state: nothing on the print path keeps rendered text in package-level state (a memo filled by a logger of one format would be replayed into a record of another)")
+	r.Rule("R08.1", "(shared with C08) nothing on the print path writes memory that outlives the call (fields of package-level objects included): text rendered for a record of one format is never kept for another record")
+	r.Rule("R08.2", "(shared with C08) lists appended to or reordered in place belong to this call")
 	r.Rule("R11.5", "isolation: no store to useJSON/useColor of another logger (shared with R10.1)")
 	for _, tags := range c.Configs([]string{""}, []string{"", "verbose", "hint"}) {
 		p := c.Prog(tags)
@@ -37,6 +40,8 @@ func checkC11(c *Ctx) {
 		// the record's shape must come from this record's mode only: no pooled encoder field is read stale in any mode
 		c09Pooled(c, p, m, "R11.6", feasibleModes)
 		c11NoEscapes(c, p, m)
+		c09Globals(c, p, m)
+		c08Stores(c, p, m)
 	}
 	c.Floor["R11.1"] = 4
 	c.Floor["R11.3"] = 5
